@@ -117,15 +117,17 @@ theorem local_decreases {N : Nat} {s s' : State} (h : Inv s) (hd : s.done = true
   have hi : i < N := by
     apply lt_of_idle_ne hb; intro hidle
     rw [localSteps_idle hidle] at hs; simp at hs
+  have hw : ∀ f : Err → State, withErr s f = f e := fun f => withErr_some f he
   unfold localSteps at hs
+  simp only [hw, if_pos hd] at hs
   split at hs <;> rename_i hp
   case h_1 k acc =>
-    simp [hd, withErr_some _ he] at hs; subst hs
+    simp only [List.mem_singleton] at hs; subst hs
     have := measure_upd (N := N) (s := s) (s' := s.setT i (.rRet acc (k.closeErr e))) _ hi rfl rfl rfl
     simp only [hp, PC.rank] at this
     exact ⟨by omega, bounded_setT _ hb hi⟩
   case h_2 k acc =>
-    split at hs <;> simp at hs <;> subst hs
+    split at hs <;> simp only [List.mem_singleton] at hs <;> subst hs
     · have := measure_upd (N := N) (s := s) (s' := s.setT i (.rRet acc .timeout)) _ hi rfl rfl rfl
       simp only [hp, PC.rank] at this
       exact ⟨by omega, bounded_setT _ hb hi⟩
@@ -133,26 +135,29 @@ theorem local_decreases {N : Nat} {s s' : State} (h : Inv s) (hd : s.done = true
       simp only [hp, PC.rank] at this
       exact ⟨by omega, bounded_setT _ hb hi⟩
   case h_3 k acc =>
-    simp at hs; subst hs
+    simp only [List.mem_singleton] at hs; subst hs
     have := measure_upd (N := N) (s := s) (s' := s.setT i (.rSel k acc s.rdl.gen)) _ hi rfl rfl rfl
     simp only [hp, PC.rank] at this
     exact ⟨by omega, bounded_setT _ hb hi⟩
   case h_4 k acc g =>
-    rcases mem_selSteps hs with h' | h' <;> split at h' <;> simp at h' <;> subst h'
-    · rw [withErr_some _ he]
+    rcases mem_selSteps hs with h' | h'
+    · simp only [Option.some.injEq] at h'; subst h'
       have := measure_upd (N := N) (s := s) (s' := s.setT i (.rRet acc (k.closeErr e))) _ hi rfl rfl rfl
       simp only [hp, PC.rank] at this
       exact ⟨by omega, bounded_setT _ hb hi⟩
-    · have := measure_upd (N := N) (s := s) (s' := s.setT i (.rRet acc .timeout)) _ hi rfl rfl rfl
+    · split at h'
+      case isFalse => simp at h'
+      simp only [Option.some.injEq] at h'; subst h'
+      have := measure_upd (N := N) (s := s) (s' := s.setT i (.rRet acc .timeout)) _ hi rfl rfl rfl
       simp only [hp, PC.rank] at this
       exact ⟨by omega, bounded_setT _ hb hi⟩
   case h_5 b =>
-    simp [hd, withErr_some _ he] at hs; subst hs
+    simp only [List.mem_singleton] at hs; subst hs
     have := measure_upd (N := N) (s := s) (s' := s.setT i (.wRet 0 (writeCloseErr e) none)) _ hi rfl rfl rfl
     simp only [hp, PC.rank] at this
     exact ⟨by omega, bounded_setT _ hb hi⟩
   case h_6 b =>
-    split at hs <;> simp at hs <;> subst hs
+    split at hs <;> simp only [List.mem_singleton] at hs <;> subst hs
     · have := measure_upd (N := N) (s := s) (s' := s.setT i (.wRet 0 .timeout none)) _ hi rfl rfl rfl
       simp only [hp, PC.rank] at this
       exact ⟨by omega, bounded_setT _ hb hi⟩
@@ -160,40 +165,46 @@ theorem local_decreases {N : Nat} {s s' : State} (h : Inv s) (hd : s.done = true
       simp only [hp, PC.rank] at this
       exact ⟨by omega, bounded_setT _ hb hi⟩
   case h_7 b =>
-    split at hs <;> simp at hs; subst hs
+    split at hs
+    case isFalse => simp at hs
+    simp only [List.mem_singleton] at hs; subst hs
     have := measure_upd (N := N) (s := s)
       (s' := { s with mu := some i, wlog := s.wlog ++ [(b, 0)] }.setT i (.wEnter b 0 s.wlog.length)) _ hi rfl rfl rfl
     simp only [hp, PC.rank] at this
     exact ⟨by omega, bounded_upd _ hb hi rfl⟩
   case h_8 b n ci =>
-    simp at hs; subst hs
+    simp only [List.mem_singleton] at hs; subst hs
     have := measure_upd (N := N) (s := s) (s' := s.setT i (.wSel b n ci s.wdl.gen)) _ hi rfl rfl rfl
     simp only [hp, PC.rank] at this
     exact ⟨by omega, bounded_setT _ hb hi⟩
   case h_9 b n ci g =>
-    rcases mem_selSteps hs with h' | h' <;> split at h' <;> simp at h' <;> subst h'
-    · rw [withErr_some _ he]
+    rcases mem_selSteps hs with h' | h'
+    · simp only [Option.some.injEq] at h'; subst h'
       have := measure_upd (N := N) (s := s)
         (s' := { s with mu := none }.setT i (.wRet n (writeCloseErr e) (some ci))) _ hi rfl rfl rfl
       simp only [hp, PC.rank] at this
       exact ⟨by omega, bounded_upd _ hb hi rfl⟩
-    · have := measure_upd (N := N) (s := s)
+    · split at h'
+      case isFalse => simp at h'
+      simp only [Option.some.injEq] at h'; subst h'
+      have := measure_upd (N := N) (s := s)
         (s' := { s with mu := none }.setT i (.wRet n .timeout (some ci))) _ hi rfl rfl rfl
       simp only [hp, PC.rank] at this
       exact ⟨by omega, bounded_upd _ hb hi rfl⟩
   case h_10 e' =>
-    simp at hs; subst hs
+    simp only [List.mem_singleton] at hs; subst hs
     have := measure_upd (N := N) (s := s)
       (s' := { s with err := s.err.orElse fun _ => some e' }.setT i .cClose) _ hi rfl rfl rfl
     simp only [hp, PC.rank] at this
     exact ⟨by omega, bounded_upd _ hb hi rfl⟩
   case h_11 =>
-    simp at hs; subst hs
+    simp only [List.mem_singleton] at hs; subst hs
     have := measure_upd (N := N) (s := s) (s' := { s with done := true }.setT i (.uRet .nil)) _ hi rfl rfl rfl
     simp only [hp, PC.rank] at this
     exact ⟨by omega, bounded_upd _ hb hi rfl⟩
   case h_12 w k =>
-    simp [hd, withErr_some _ he] at hs; subst hs
+    simp only [List.mem_singleton] at hs; subst hs
+    generalize (if w = true then Err.eof else Err.closedPipe) = tgt
     split
     · have := measure_upd (N := N) (s := s) (s' := s.setT i (.uRet .closedPipe)) _ hi rfl rfl rfl
       simp only [hp, PC.rank] at this
@@ -202,7 +213,7 @@ theorem local_decreases {N : Nat} {s s' : State} (h : Inv s) (hd : s.done = true
       simp only [hp, PC.rank] at this
       exact ⟨by omega, bounded_setT _ hb hi⟩
   case h_13 w k =>
-    simp at hs; subst hs
+    simp only [List.mem_singleton] at hs; subst hs
     have hm := msum_upd_lt N i s.thr (.uRet .nil) hi
     simp only [hp, PC.rank] at hm
     cases w
@@ -213,5 +224,130 @@ theorem local_decreases {N : Nat} {s s' : State} (h : Inv s) (hd : s.done = true
       have b1 := DL.bit_le (s.wdl.set k)
       simp only [measure, State.setT, if_true]; omega
   case h_14 => simp at hs
+
+
+theorem istep_decreases {N : Nat} {s s' : State} (h : Inv s) (hd : s.done = true) (hb : Bounded N s)
+    (st : IStep s s') : measure N s' < measure N s ∧ Bounded N s' := by
+  cases st with
+  | loc i hs => exact local_decreases h hd hb i hs
+  | finish i hs =>
+    unfold finish at hs
+    split at hs <;> rename_i hp <;> first
+      | (simp at hs; done)
+      | (simp only [Option.some.injEq] at hs; subst hs
+         have hi : i < N := lt_of_idle_ne hb (by rw [hp]; simp)
+         have := measure_upd (N := N) (s := s) (s' := s.setT i .idle) _ hi rfl rfl rfl
+         simp only [hp, PC.rank] at this
+         exact ⟨by omega, bounded_setT _ hb hi⟩)
+  | fire w hs =>
+    unfold fire at hs
+    cases w
+    · simp only [Bool.false_eq_true, if_false] at hs
+      split at hs
+      next ha =>
+        have hc := h.rdlOk ha
+        simp only [hc, Bool.false_eq_true, if_false, Option.some.injEq] at hs; subst hs
+        refine ⟨?_, hb⟩
+        simp only [measure, DL.bit, ha, if_true, Bool.false_eq_true, if_false]; omega
+      next => simp at hs
+    · simp only [if_true] at hs
+      split at hs
+      next ha =>
+        have hc := h.wdlOk ha
+        simp only [hc, Bool.false_eq_true, if_false, Option.some.injEq] at hs; subst hs
+        refine ⟨?_, hb⟩
+        simp only [measure, DL.bit, ha, if_true, Bool.false_eq_true, if_false]; omega
+      next => simp at hs
+  | data i j hs =>
+    unfold data at hs
+    split at hs
+    next k acc g b n ci gw hi hj =>
+      split at hs
+      next =>
+        simp only [Option.some.injEq] at hs; subst hs
+        have hiN : i < N := lt_of_idle_ne hb (by rw [hi]; simp)
+        have hjN : j < N := lt_of_idle_ne hb (by rw [hj]; simp)
+        have hij : i ≠ j := by intro e; subst e; rw [hi] at hj; cases hj
+        have m1 := msum_upd_lt N i s.thr (.rAck (k.consume b.length).2.2 acc (k.consume b.length).1 (k.consume b.length).2.1 (b.take (k.consume b.length).1)) hiN
+        have m2 := msum_upd_lt N j (fun x => if x = i then (PC.rAck (k.consume b.length).2.2 acc (k.consume b.length).1 (k.consume b.length).2.1 (b.take (k.consume b.length).1)) else s.thr x) (.wAwait b n ci) hjN
+        simp only [hi, PC.rank] at m1
+        simp only [Ne.symm hij, if_false, hj, PC.rank] at m2
+        refine ⟨?_, ?_⟩
+        · simp only [measure, State.setT]; omega
+        · intro x hx; simp only [State.setT]
+          have h1 : x ≠ j := by omega
+          have h2 : x ≠ i := by omega
+          simp [h1, h2, hb x hx]
+      next => simp at hs
+    next => simp at hs
+  | count i j hs =>
+    unfold count at hs
+    split at hs
+    next k acc nr fail chunk b n ci hi hj =>
+      have hiN : i < N := lt_of_idle_ne hb (by rw [hi]; simp)
+      have hjN : j < N := lt_of_idle_ne hb (by rw [hj]; simp)
+      have hij : i ≠ j := by intro e; subst e; rw [hi] at hj; cases hj
+      obtain ⟨j', hj'⟩ := h.ackHs i (by simp [hi, PC.isAck])
+      obtain ⟨i', hi'⟩ := h.awaitHs j (by simp [hj, PC.isAwait])
+      have hhs : s.hs = some (i, j) := by
+        rw [hj'] at hi'; simp only [Option.some.injEq, Prod.mk.injEq] at hi'
+        rw [hj', hi'.2]
+      obtain ⟨_, _, _, _, b0, _, _, e1, e2, hle⟩ := h.hsOk i j hhs
+      rw [hi] at e1; rw [hj] at e2
+      simp only [PC.rAck.injEq] at e1; simp only [PC.wAwait.injEq] at e2
+      obtain ⟨_, _, enr, _, _⟩ := e1
+      obtain ⟨eb, _, _⟩ := e2
+      subst enr; subst eb
+      have hnle : ¬ nr > b.length := by omega
+      simp only [hnle, if_false, Option.some.injEq] at hs
+      have hr := after_rank k acc nr fail
+      generalize k.after acc nr fail = rpc at hs hr
+      split at hs
+      · subst hs
+        have m1 := msum_upd_lt N j s.thr (.wEnter (b.drop nr) (n + nr) ci) hjN
+        have m2 := msum_upd_lt N i (fun x => if x = j then (PC.wEnter (b.drop nr) (n + nr) ci) else s.thr x) rpc hiN
+        simp only [hj] at m1
+        simp only [hij, if_false, hi] at m2
+        have r1 : (PC.wAwait b n ci).rank = 2 := rfl
+        have r2 : (PC.rAck k acc nr fail chunk).rank = 28 := rfl
+        have r3 : (PC.wEnter (b.drop nr) (n + nr) ci).rank = 4 := rfl
+        have r4 : (PC.wRet (n + nr) .nil (some ci)).rank = 1 := rfl
+        refine ⟨?_, ?_⟩
+        · simp only [measure, State.setT]; omega
+        · intro x hx; simp only [State.setT]
+          have h1 : x ≠ j := by omega
+          have h2 : x ≠ i := by omega
+          simp [h1, h2, hb x hx]
+      · subst hs
+        have m1 := msum_upd_lt N j s.thr (.wRet (n + nr) .nil (some ci)) hjN
+        have m2 := msum_upd_lt N i (fun x => if x = j then (PC.wRet (n + nr) .nil (some ci)) else s.thr x) rpc hiN
+        simp only [hj] at m1
+        simp only [hij, if_false, hi] at m2
+        have r1 : (PC.wAwait b n ci).rank = 2 := rfl
+        have r2 : (PC.rAck k acc nr fail chunk).rank = 28 := rfl
+        have r3 : (PC.wEnter (b.drop nr) (n + nr) ci).rank = 4 := rfl
+        have r4 : (PC.wRet (n + nr) .nil (some ci)).rank = 1 := rfl
+        refine ⟨?_, ?_⟩
+        · simp only [measure, State.setT]; omega
+        · intro x hx; simp only [State.setT]
+          have h1 : x ≠ j := by omega
+          have h2 : x ≠ i := by omega
+          simp [h1, h2, hb x hx]
+    next => simp at hs
+
+/-- a run of `k` internal steps -/
+inductive IRun : State → Nat → State → Prop where
+  | nil {s} : IRun s 0 s
+  | cons {s s1 s2 k} : IStep s s1 → IRun s1 k s2 → IRun s (k + 1) s2
+
+/-- every run of internal steps from a closed direction has at most `measure N s` steps -/
+theorem run_bounded {N k : Nat} {s s' : State} (run : IRun s k s') (h : Inv s) (hd : s.done = true)
+    (hb : Bounded N s) : k + measure N s' ≤ measure N s ∧ Inv s' ∧ s'.done = true ∧ Bounded N s' := by
+  induction run with
+  | nil => exact ⟨by omega, h, hd, hb⟩
+  | cons st _ ih =>
+    have d := istep_decreases h hd hb st
+    have := ih (inv_step h st.toStep) ((step_keeps st.toStep).1 hd) d.2
+    exact ⟨by omega, this.2⟩
 
 end SSV.Pipe
